@@ -18,6 +18,11 @@ func TestC34_DKG(t *testing.T) {
 	rapid.Check(t, func(t *rapid.T) {
 		n := rapid.IntRange(1, 9).Draw(t, "n")
 		th := rapid.IntRange(1, n).Draw(t, "t")
+		// parties that take part in the share exchange but do not make it into the magic block; the others
+		// drop their shares (DeleteFromSet) before or after a first aggregation, or simply aggregate again
+		extra := rapid.SampledFrom([]int{0, 1, 0, 2}).Draw(t, "dropped")
+		mode := rapid.SampledFrom([]string{"once", "shrink", "repeat", "once"}).Draw(t, "aggregation")
+		n += extra
 		ids := make([]string, n)
 		used := map[string]bool{}
 		for i := range ids {
@@ -65,7 +70,22 @@ func TestC34_DKG(t *testing.T) {
 				}
 			}
 		}
+		n -= extra
+		for _, d := range dkgs[n:] {
+			delete(mpks, d.ID)
+		}
+		dkgs = dkgs[:n]
 		for i := range dkgs {
+			switch mode {
+			case "once":
+				dkgs[i].DeleteFromSet(ids[n:])
+			case "shrink":
+				dkgs[i].AggregateSecretKeyShares()
+				dkgs[i].DeleteFromSet(ids[n:])
+			case "repeat":
+				dkgs[i].DeleteFromSet(ids[n:])
+				dkgs[i].AggregateSecretKeyShares()
+			}
 			dkgs[i].AggregateSecretKeyShares()
 			if err := dkgs[i].AggregatePublicKeyShares(mpks); err != nil {
 				t.Fatalf("%s", vkit.Violation("C34", "aggregate-public", "AggregatePublicKeyShares failed: %v", err))
@@ -79,7 +99,7 @@ func TestC34_DKG(t *testing.T) {
 		for i := range dkgs {
 			for k := range dkgs {
 				if !dkgs[k].VerifySignature(&sigs[i], msg, dkgs[i].ID) {
-					t.Fatalf("%s", vkit.Violation("C34", "share-signature-rejected", "party %d's signature does not verify at party %d under its group-derived key (t=%d n=%d)", i, k, th, n))
+					t.Fatalf("%s", vkit.Violation("C34", "share-signature-rejected", "party %d's signature does not verify at party %d under its group-derived key (t=%d n=%d, %d parties dropped, aggregation %q)", i, k, th, n, extra, mode))
 				}
 				if dkgs[k].VerifySignature(&sigs[i], msg+"x", dkgs[i].ID) {
 					t.Fatalf("%s", vkit.Violation("C34", "share-signature-other-message", "signature verifies for another message"))
@@ -135,6 +155,7 @@ func TestC34_DKG(t *testing.T) {
 		}
 		st.Case()
 		st.Class(fmt.Sprintf("dkg_t%d_n%d", th, n))
+		st.Class(fmt.Sprintf("dkg_aggregation_%s_dropped%d", mode, extra))
 		if th < n && len(distinctSubsets) >= 2 {
 			st.NonTrivial("dkg", th, n, fmt.Sprint(ids), msg, fmt.Sprint(distinctSubsets))
 		}
